@@ -151,6 +151,17 @@ func (w *World) buildInit() *initInfo {
 			if len(sts) > 0 {
 				st, _ = mergeStates(sts)
 			}
+			if len(fr.localRegions) > 0 {
+				dead := map[uint64]bool{}
+				for _, r := range fr.localRegions {
+					dead[r] = true
+				}
+				for name, mm := range st.mems {
+					if len(mm.ksort) == 2 {
+						st.mems[name] = stripRegions(mm, dead, 0, map[*Mem]*Mem{})
+					}
+				}
+			}
 		}()
 		// record immutable globals of this package
 		for _, m := range p.Members {
